@@ -26,7 +26,7 @@ pub enum SAct
 #[derive(Clone, Debug)]
 pub enum STop
 {
-    Acts(Vec<SAct>), WDespawn(Ref), WDespawnRec(Ref), WRemove(Ref, usize), WInsertRaw(Ref, usize, u32), WSetParent(Ref, Ref),
+    Acts(Vec<SAct>), AppReactor(usize, Vec<STrig>), WDespawn(Ref), WDespawnRec(Ref), WRemove(Ref, usize), WInsertRaw(Ref, usize, u32), WSetParent(Ref, Ref),
     Gc, Poll, FrameEnd, WSysEvent(Ref, usize, u32), WBroadcast(usize, u32), WEntityEvent(Ref, usize, u32),
     SigPrepare(Ref), SigClone(usize), SigDrop(usize), SigThreads(usize, usize),
 }
@@ -166,6 +166,7 @@ pub fn parse_scenario(text: &str) -> Option<Scenario>
             ["wr", d] => sc.wrs.push(num(d)?),
             ["ewr", d] => sc.ewrs.push(num(d)?),
             ["top", "acts", n] => { let a = take_acts(num(n)?, &mut lines)?; sc.tops.push(STop::Acts(a)); }
+            ["top", "appreactor", d, ts @ ..] => { sc.tops.push(STop::AppReactor(num(d)?, parse_trigs(ts)?)); }
             ["top", rest @ ..] => sc.tops.push(parse_top(rest)?),
             _ => return None,
         }
